@@ -63,6 +63,16 @@ CHECKS = {
             rapid("anyfallback", "^TestC03AnyFallback$", 100000, 1),
         ],
     },
+    "C07": {
+        "quick": [
+            plain("regress", "^TestRegressC07"),
+            rapid("context", "^TestC07Context$", 4000, 4),
+        ],
+        "thorough": [
+            plain("regress", "^TestRegressC07"),
+            rapid("context", "^TestC07Context$", 80000, 16, timeout=3000),
+        ],
+    },
     "C10": {
         "quick": [
             plain("regress", "^TestRegressC10"),
@@ -107,6 +117,7 @@ CHECKS = {
 LEVELS = {"C10": "fault_enumeration"}
 
 RULES = {
+    "C07": "cases = rapid state machine over a growing tree of loggers: derive from a random node by With / WithLazy / Named / WithOptions(Fields) / Sugar / Desugar (sugared equivalents included), fields incl. namespaces, Spec values and objects backed by a marshaler the machine mutates between steps; log through random nodes; GC; finally log through every node in a drawn order; over 10 core compositions (JSON, console, observer, tees, sampler, hooked, level-increased, lazy, all combined). Model = per-node ordered path fields with explicit evaluation time (With: at derivation; WithLazy: at first use of the node or of any descendant core). Non-trivial = a log through a node whose parent has context and >= 2 children after >= 3 derivations, or a lazy node pending while its marshaler was mutated. Distinct = distinct (core kind, derivation tree shape).",
     "C03": "cases = one row per exported constructor of field.go/array.go/error.go/exp/zapfield (completeness checked against the parsed source at run time) with full-range values and boundary tables, through the value, pointer, slice and zap.Any routes; field lists with nested marshalers; values that zap.Any does not special-case. Oracle = independent recording encoder (exact value, bits, instant+zone, byte-identical slices, explicit null, no call for nil errors), Any vs typed constructor agreement, Equals laws. Non-trivial = boundary/extreme value, pointer, slice, nil pointer, time or Any route. Distinct = distinct (constructor kind, value class, ptr, any) resp. kind multisets. excluded_known counts reflexivity assertions skipped for K1 inputs.",
     "C01": "cases = EncoderConfig (keys empty/hostile/duplicate; built-in, nil, no-op and layout sub-encoders; line endings) x Entry (any int8 level, hostile zones, caller, stack) x 0-3 With rounds x call-site fields from typed Spec trees (all constructor families, zap.Any routing, nesting depth <= 3, failing marshalers, panicking/nil stringers and errors, unencodable reflected values). Non-trivial = has a nested marshaler, namespace, failing member, non-empty With context, nil/no-op/layout sub-encoder or hostile key. Distinct = distinct (config shape, field-kind multiset, depth, fault count, With rounds).",
     "C02": "cases = as C01 with built-in/nil/no-op sub-encoders (D3), each Spec tree carrying its expected ordered tree; plus single-kind scalar batches over full ranges. Non-trivial = extreme numeric (NaN/Inf/uint64>2^63/min-max), invalid UTF-8, nesting depth >= 2 or a namespace inside a nested object (scalar job: time/duration/complex/float32 or extreme). Distinct = distinct (config shape, kind multiset, depth) resp. (kind, time encoder, duration encoder, ptr, any).",
@@ -126,6 +137,11 @@ ASSUMPTIONS = {
 TRUST = "Trusted base: Go toolchain/runtime, rapid's generators and shrinker, the reference model/oracle code in /verif/harness/props, and the standard-library packages used as reference implementations. Search-based: absence of a counterexample in the generated cases is not a proof."
 
 META = {
+    "C07": {
+        "technique": "model-based stateful property testing (rapid t.Repeat): logger derivation tree vs reference model of per-node context with explicit evaluation times",
+        "level_text": "A generated history derives loggers from arbitrary existing loggers and logs through them in arbitrary order; after every log call the emitted entry (decoded JSON line, console context and observer fields, whichever the core composition has) must equal exactly the model's path fields followed by the call-site field under the dot-joined name; mutable marshalers make the With/WithLazy evaluation point observable. Exploration: histories are unbounded; small trees already exercise clone-on-derive, encoder buffer cloning, capacity-capped appends and once-only lazy evaluation.",
+        "level_note": TRUST + " All cores are fully enabled so that the lazy evaluation point is unambiguous. Observer fields are compared by key/type/packed value and marshaler identity (the observer stores fields unevaluated).",
+    },
     "C03": {
         "technique": "property-based testing (rapid): per-constructor full-range generators against an independent recording encoder; differential zap.Any vs typed constructor; algebraic laws of Field.Equals; source-parsing completeness check",
         "level_text": "Every exported constructor (enumerated from the source at run time; an uncovered one makes the check inconclusive) is driven with full-range and boundary values through the value, pointer, slice, generic and zap.Any routes; an independent ObjectEncoder records what arrives and must see exactly the original value (integers without truncation or sign change, float/complex bits incl. NaN payloads, same instant and zone, byte-identical slices, explicit null for nil pointers, nothing for nil errors). Fields built independently from equal inputs must be Equal in both directions, Equals must be reflexive, symmetric and never panic. Exploration with explicit boundary tables is the fitting level for a per-value property.",
